@@ -455,7 +455,8 @@ def seq_search(item):
         alphabet.append(("inval", k))
     for d in (1, MAXAGE, MAXAGE + 1):
         alphabet.append(("tick", d))
-    stats = {"states": 0, "transitions": 0, "fails": [], "outcomes": set()}
+    stats = {"states": 0, "transitions": 0, "fails": [], "outcomes": set(),
+             "per_class": {}}
 
     def step(cache, model, sess_of_key, now, op, counter):
         """Apply op to the real cache and the model; returns failure or
@@ -512,11 +513,15 @@ def seq_search(item):
             stats["transitions"] += 1
             h2 = hist + [op]
             if fail:
-                if len(stats["fails"]) < 40:
-                    sets = [o[1] for o in h2 if o[0] == "set"]
+                # histories that store twice under one ID (a known finding)
+                # must not crowd out other failures: cap per class
+                sets = [o[1] for o in h2 if o[0] == "set"]
+                dup = len(sets) != len(set(sets))
+                cls = (dup, fail[:25])
+                stats["per_class"][cls] = stats["per_class"].get(cls, 0) + 1
+                if stats["per_class"][cls] <= 6:
                     stats["fails"].append({
-                        "history": h2, "why": fail,
-                        "dup": len(sets) != len(set(sets)),
+                        "history": h2, "why": fail, "dup": dup,
                         "max_entries": max_entries})
                 continue
             rec(cache2, m2, sk2, now2, cnt2, h2, d - 1)
@@ -526,6 +531,7 @@ def seq_search(item):
     cache.lock = _NullLock()
     rec(cache, CacheModel(max_entries), {}, 1000.0, 0, [], depth)
     stats["outcomes"] = sorted(stats["outcomes"])
+    del stats["per_class"]
     return stats, max_entries, first_op, alphabet
 
 
